@@ -87,7 +87,10 @@ class Monitor:
     def post_recv(self, conn, hdr, datagram, pre, result):
         pass
 
-    def on_build(self, conn, pkt):
+    def pre_build(self, conn):
+        return None
+
+    def on_build(self, conn, pkt, pre=None):
         pass
 
     def on_ack(self, conn, seq, acked):
@@ -451,7 +454,8 @@ class World:
                "status": conn.status.name() if conn is not None else None, "cb": bool(op.get("cb")),
                "ok": None, "echo": bool(op.get("echo")), "small": bytes(payload[:24]),
                "q0": len(conn.outgoing_messages) if conn is not None else 0,
-               "msgseq0": int(conn.seq_message) if conn is not None else 0}
+               "msgseq0": int(conn.seq_message) if conn is not None else 0,
+               "fragseq0": int(conn.seq_fragment) if conn is not None else 0}
         self.sends.append(rec)
         cb = None
         if op.get("cb"):
@@ -474,6 +478,7 @@ class World:
         if conn is not None:
             rec["q1"] = len(conn.outgoing_messages)
             rec["msgseq1"] = int(conn.seq_message)
+            rec["frag_id"] = int(conn.seq_fragment) if int(conn.seq_fragment) != rec["fragseq0"] else None
         return rec
 
     def delivered(self, receiver, conn, msg, msgseq):
@@ -540,10 +545,11 @@ class World:
             orig_b = CB._build_packet
 
             def _build_packet(conn):
+                pre = [m.pre_build(conn) for m in mon_build]
                 pkt = orig_b(conn)
                 if pkt is not None:
-                    for m in mon_build:
-                        m.on_build(conn, pkt)
+                    for m, p in zip(mon_build, pre):
+                        m.on_build(conn, pkt, p)
                 return pkt
             S._set(CB, "_build_packet", _build_packet)
         if mon_ack:
